@@ -78,7 +78,7 @@ pub struct Case {
     pub calls: Vec<Call>,
 }
 
-const NATOMS: u8 = 10;
+const NATOMS: u8 = 12;
 const VALS: [Option<i64>; 4] = [None, Some(0), Some(1), Some(2)];
 
 fn a(s: &str) -> Alias {
@@ -100,7 +100,10 @@ fn atom_expr(i: u8) -> SimpleExpr {
         6 => col("r").eq(1).not(),
         7 => col("p").is_in([1, 2]),
         8 => col("q").between(0, 1),
-        _ => col("r").eq(1).and(col("s").eq(1)),
+        9 => col("r").eq(1).and(col("s").eq(1)),
+        // raw SQL fragments are conditions too: the fragment as a whole is one conjunct
+        10 => Expr::cust("p = 1 OR q = 1"),
+        _ => Expr::cust("r = 1 AND s = 1"),
     }
 }
 
@@ -143,6 +146,7 @@ fn atom_ref(i: u8, row: &[Option<i64>; 4]) -> V3 {
         6 => not3(cmp3(r, Some(1), |x, y| x == y)),
         7 => or3(cmp3(p, Some(1), |x, y| x == y), cmp3(p, Some(2), |x, y| x == y)),
         8 => and3(cmp3(q, Some(0), |x, y| x >= y), cmp3(q, Some(1), |x, y| x <= y)),
+        10 => or3(cmp3(p, Some(1), |x, y| x == y), cmp3(q, Some(1), |x, y| x == y)),
         _ => and3(cmp3(r, Some(1), |x, y| x == y), cmp3(s, Some(1), |x, y| x == y)),
     }
 }
@@ -780,7 +784,7 @@ pub fn case_strategy() -> impl Strategy<Value = Case> {
 pub fn run(ctx: &mut Ctx) {
     ctx.rule = "cases = (site, history of condition-adding calls): sites are SELECT WHERE / HAVING (with and without GROUP BY), UPDATE WHERE, DELETE WHERE, JOIN ON, CASE WHEN; \
 calls are and_where / and_where_option / cond_where (and the HAVING equivalents) with condition trees of any/all groups, negate flags, empty groups and \
-add_option(None) members over 10 atoms on four columns. Exhaustive: every tree of depth <= 1 (width <= 3), every depth-2 tree of width <= 2 over the depth-1 trees \
+add_option(None) members over 12 atoms on four columns (two of them raw SQL fragments given through Expr::cust). Exhaustive: every tree of depth <= 1 (width <= 3), every depth-2 tree of width <= 2 over the depth-1 trees \
 on 2 atoms, and every pair of calls over the depth-1 trees on 2 atoms (width <= 2); random: histories of up to 4 calls with trees up to depth 3. Every case is decided on all 256 \
 three-valued assignments. Non-trivial = at least 2 adding calls, or nesting depth >= 2, or a negated or empty group; distinct by (site, history)."
         .into();
